@@ -11,7 +11,7 @@ RULE = ("corpus strings x random language subsets (1-5 of the first 80 languages
         "position 60% of the time) x use_given_order x DEFAULT_LANGUAGES {none, ['en'], ['fr','en']}: the result must equal the "
         "first successful memoised single-language result in priority (or given) order, its locale must belong to the selection "
         "(or to DEFAULT_LANGUAGES when the selection fails), and DEFAULT_LANGUAGES must not change a result the selection "
-        "produces; autodetected result re-parsed with languages=[reported]; complete walk of every valid (language, region) of "
+        "produces; the same law for locales= selections (regional locales of distinct languages, both ordering rules); autodetected result re-parsed with languages=[reported]; complete walk of every valid (language, region) of "
         "language_locale_dict: languages=[L], region=R must equal locales=[L-R] on a numeric and a named date; mixed-validity "
         "region lists (region valid for only some of the languages). non-trivial distinct = distinct (string, selection, "
         "settings) whose result was non-None, plus every (language, region) pair.")
@@ -129,6 +129,53 @@ def check_compose(ctx, s, det, langs, ugo, dl):
             pass
 
 
+def one_loc(loc, s):
+    from dateparser.date import DateDataParser
+
+    k = ("loc", loc, s)
+    if k not in _single:
+        try:
+            r = DateDataParser(locales=[loc], settings={"RELATIVE_BASE": B}).get_date_data(s)
+            _single[k] = (r["date_obj"], r["period"], r["locale"])
+        except Exception as e:
+            _single[k] = (e, None, None)
+    return _single[k]
+
+
+def check_compose_locales(ctx, s, locs, ugo):
+    """The same law for a `locales=` selection (locales of distinct languages): first successful single-locale result,
+    in the priority order of their languages or in the given order; the reported locale is that very locale."""
+    from dateparser.data.languages_info import language_order
+    from dateparser.date import DateDataParser
+
+    case = {"kind": "compose-locales", "string": s, "locales": locs, "use_given_order": ugo}
+    try:
+        m = DateDataParser(locales=list(locs), use_given_order=ugo, settings={"RELATIVE_BASE": B}).get_date_data(s)
+    except Exception as e:
+        ctx.violation(case, e, "a DateData", "selection-raised", {"kind": "compose-locales"})
+        return
+    ctx.ran()
+    got = (m["date_obj"], m["period"], m["locale"])
+    order = list(locs) if ugo else sorted(locs, key=lambda l: language_order.index(languages_of(l, language_order)))
+    exp = (None, "day", None)
+    for loc in order:
+        r = one_loc(loc, s)
+        if isinstance(r[0], Exception):
+            ctx.count("single-language raised (C02's subject)")
+            return
+        if r[0] is not None:
+            exp = r
+            break
+    if got[0] is None and exp[0] is None:
+        ctx.count("composed-locales:none")
+        return
+    if got != exp:
+        ctx.violation(case, got, exp, "composition", {"kind": "compose-locales", "ugo": ugo, "has_default": False})
+        return
+    ctx.nontrivial(s, tuple(locs), ugo, "locales")
+    ctx.count("composed:selected-locale")
+
+
 def check_autodetect(ctx, s):
     from dateparser.date import DateDataParser
 
@@ -151,7 +198,7 @@ def check_autodetect(ctx, s):
 
 
 def run_compose(ctx, desc):
-    from dateparser.data.languages_info import language_order
+    from dateparser.data.languages_info import language_locale_dict, language_order
 
     rnd = rng(ctx.seed, "C13", desc["i"])
     rows = corpus()[desc["i"]::desc["k"]]
@@ -167,6 +214,15 @@ def run_compose(ctx, desc):
             ugo = rnd.random() < 0.5
             dl = rnd.choice([None, None, ["en"], ["fr", "en"]])
             check_compose(ctx, s, det, langs, ugo, dl)
+            if t == 0:
+                # a locales= selection: regional locales (or bare language codes) of distinct languages
+                ls = rnd.sample(language_order[:60], rnd.randrange(2, 5))
+                if det and det in language_order and det not in ls and rnd.random() < 0.6:
+                    ls.insert(rnd.randrange(len(ls) + 1), det)
+                locs = [rnd.choice(language_locale_dict[L]) if language_locale_dict[L] and rnd.random() < 0.7 else L for L in ls]
+                for sx in (s, rnd.choice(["02/03/2015", "2015-02-13", "12/31/15 10:30", "1.2.2003"])):
+                    check_compose_locales(ctx, sx, locs, ugo)
+                    check_compose_locales(ctx, sx, locs, not ugo)
             if t == 0 and len(langs) > 1:
                 # the same selection under the other ordering rule, and back: the order a selection is tried in
                 # must depend on use_given_order of *this* call only
@@ -281,7 +337,9 @@ def finalize(merged, tier, seed):
 def replay_case(ctx, v):
     install_tap()
     c = v["case"]
-    if c["kind"] == "compose":
+    if c["kind"] == "compose-locales":
+        check_compose_locales(ctx, c["string"], c["locales"], c["use_given_order"])
+    elif c["kind"] == "compose":
         check_compose(ctx, c["string"], None, c["languages"], c["use_given_order"], c["DEFAULT_LANGUAGES"])
     elif c["kind"] == "autodetect":
         check_autodetect(ctx, c["string"])
